@@ -24,10 +24,6 @@ Definition ident_eqb (a b : ident) : bool := sig_eqb (fst a) (fst b) && Nat.eqb 
    attributes/properties; 0 = what the default constructor of the op class on the operands constructs *)
 Record opk := mkOp { oname : Z; oattr : Z }.
 Definition opk_eqb (a b : opk) : bool := (oname a =? oname b) && (oattr a =? oattr b).
-(* op classes that cannot be built as by the default constructor (arith.cmpi, arith.cmpf, arith.constant …)
-   have names >= 1000 in the converter's table *)
-Definition default_constructible (name : Z) : bool := name <? 1000.
-
 (* ---------------------------------------------------------------- PE graphs *)
 Inductive src :=
 | SArg (i : nat)
@@ -166,14 +162,12 @@ Fixpoint uncollide_args (G : pe) (n : nat) (os as_ : list src) : option (list sr
   | _, _ => None
   end.
 
-(* ChooseOp.insert_operations: dedup by op name, the new alternative is default-constructed *)
-Fixpoint insert_ops (cur new : list opk) : option (list opk) :=
+(* ChooseOp.insert_operations (after fix 29d845f): an operation that is not yet among the alternatives — same
+   name AND same attributes/properties (phs.same_operation) — is appended as a clone *)
+Fixpoint insert_ops (cur new : list opk) : list opk :=
   match new with
-  | [] => Some cur
-  | k :: ks =>
-      if existsb (fun o => oname o =? oname k) cur then insert_ops cur ks
-      else if default_constructible (oname k) then insert_ops (cur ++ [mkOp (oname k) 0]) ks
-      else None
+  | [] => cur
+  | k :: ks => if existsb (opk_eqb k) cur then insert_ops cur ks else insert_ops (cur ++ [k]) ks
   end.
 
 Definition append_node (G : pe) (c : node) : option pe :=
@@ -188,11 +182,9 @@ Definition append_node (G : pe) (c : node) : option pe :=
       match uncollide_args G (pnsw G) (nargs c) (nargs a) with
       | None => None
       | Some (args', n') =>
-          match insert_ops (nops a) (nops c) with
-          | None => None
-          | Some ops' =>
-              Some (mkPe (pdata G) n' (replace_node (pnodes G) (nid c) (mkNode (nid a) (nsw a) ops' args')) (pout G))
-          end
+          Some (mkPe (pdata G) n'
+                     (replace_node (pnodes G) (nid c) (mkNode (nid a) (nsw a) (insert_ops (nops a) (nops c)) args'))
+                     (pout G))
       end
   end.
 
@@ -287,11 +279,12 @@ Fixpoint search (g G : pe) (muxes : list nat) (mu : nat -> Z) : option (option (
       end
   end.
 
-Fixpoint index_of_name (name : Z) (ops : list opk) : option nat :=
+(* decode's local choice: the first alternative that is the same operation (phs.same_operation) *)
+Fixpoint index_of_op (k0 : opk) (ops : list opk) : option nat :=
   match ops with
   | [] => None
-  | k :: r => if oname k =? name then Some O
-              else match index_of_name name r with Some j => Some (S j) | None => None end
+  | k :: r => if opk_eqb k k0 then Some O
+              else match index_of_op k0 r with Some j => Some (S j) | None => None end
   end.
 
 Inductive entry := ESkip | EVal (v : Z) | EMux (i : nat).
@@ -307,7 +300,7 @@ Definition decode_switch (G g : pe) (i : nat) : option entry :=
            | Some c =>
                match nops c with
                | [] => None
-               | k :: _ => match index_of_name (oname k) (nops n) with
+               | k :: _ => match index_of_op k (nops n) with
                            | Some j => Some (EVal (Z.of_nat j))
                            | None => None
                            end
@@ -437,18 +430,17 @@ Definition opt_eqb {A} (eqb : A -> A -> bool) (a b : option A) : bool :=
   match a, b with Some x, Some y => eqb x y | None, None => true | _, _ => false end.
 
 (* ---------------------------------------------------------------- decidable side conditions *)
-Fixpoint find_op (name : Z) (ops : list opk) : option opk :=
+Fixpoint find_op (k0 : opk) (ops : list opk) : option opk :=
   match ops with
   | [] => None
-  | k :: r => if oname k =? name then Some k else find_op name r
+  | k :: r => if opk_eqb k k0 then Some k else find_op k0 r
   end.
 
-(* class distinct_by_type (its negation is the known finding not_distinct_by_type): the alternative that
-   decode picks for the choose op [c] of the kernel — the first one of the same op type in the abstract
-   choose op [a] — is the kernel's operation, attributes included *)
+(* the kernel's operation is among the alternatives of the abstract choose op (needed by decode_sound because
+   decode does not look at one-alternative choose ops at all); always true for a merged kernel *)
 Definition alt_agree (c a : node) : bool :=
   match nops c with
-  | k :: _ => match find_op (oname k) (nops a) with Some k' => opk_eqb k' k | None => false end
+  | k :: _ => match find_op k (nops a) with Some _ => true | None => false end
   | [] => false
   end.
 Definition ops_agree (g G : pe) : bool :=
@@ -468,12 +460,8 @@ Definition pe_wf (G : pe) : bool :=
   && nodup_ids (map nid (pnodes G))
   && forallb (fun i => match switch_user G i with Some _ => true | None => false end) (seq 0 (pnsw G)).
 
-(* all alternatives are what the default constructor builds (no attribute distinguishes two operations of
-   one type): the domain of history_correct *)
-Definition plain_node (n : node) : bool := forallb (fun k => oattr k =? 0) (nops n).
-Definition plain_pe (G : pe) : bool := forallb plain_node (pnodes G).
-(* what convert_generic_body_to_phs produces for a body without attribute-carrying operations *)
-Definition kernel_ok (g : pe) : bool := is_concrete g && nodup_ids (map nid (pnodes g)) && plain_pe g.
+(* what convert_generic_body_to_phs produces *)
+Definition kernel_ok (g : pe) : bool := is_concrete g && nodup_ids (map nid (pnodes g)).
 
 (* a kernel body in SSA form: operands are block arguments or results of earlier operations, the yield has
    an operand *)
@@ -487,4 +475,3 @@ Fixpoint kops_ok (na j : nat) (ops : list kop) : bool :=
 Definition body_ok (b : body) : bool :=
   kops_ok (bnargs b) 0 (bops b)
   && match byield b with y :: _ => ksrc_ok (bnargs b) (length (bops b)) y | [] => false end.
-Definition plain_body (b : body) : bool := forallb (fun o => oattr (kkind o) =? 0) (bops b).
